@@ -1,4 +1,5 @@
 import AasVerif.Lemmas.InferSafe
+import AasVerif.Lemmas.BoolForm
 import AasVerif.Gen.Infer
 /-!
 # C07 — type-checked invariants cannot fail at run time
@@ -218,6 +219,45 @@ example : (match eval (ρ1 inner) e1 with | .val (.bool false) => true | _ => fa
 example : (match eval (ρ1 inner) e2 with | .val (.bool true) => true | _ => false) = true := by decide
 /-- and the rejected one does dereference `None` -/
 example : (match eval (ρ1 .none) e3 with | .noneDeref => true | _ => false) = true := by decide
+
+/-! ## Boolean contexts (finding C07-F2) and what holds instead -/
+
+/-- `self.s and self.s` with `s : str`: accepted as `bool` … -/
+def e5 : Expr := .and [.member (.name (t "self")) (t "s"), .member (.name (t "self")) (t "s")]
+
+theorem bool_context_accepted : inferC (TEnv.forSelf D0 (t "C")) e5 = .ok .bool := by decide
+
+/-- … and evaluates to the string `"a"`: the inferred type `bool` is wrong
+(finding `C07:unchecked:bool-context`). -/
+theorem bool_context_fails : (match eval ρ0 e5 with | .val (.str _) => true | _ => false) = true := by decide
+
+/-- **sound_partial, boolean part**: if the invariant is *syntactically boolean* (`boolForm`:
+comparisons, `in`, `is (not) None`, `not`, `any`/`all`, `bool` constants, combined by `and`/`or`/
+implication consequents) then, whatever the operand types, its value — if it has one — is a `bool`. -/
+theorem bool_result_partial (ρ : Env) (hf : ∀ op a b, IsBoolOut (ρ.fops.cmp op a b)) (e : Expr)
+    (h : boolForm e = true) (v : Val) (hv : eval ρ e = .val v) : ∃ b, v = .bool b :=
+  bool_result ρ hf e h v hv
+
+/-- Together with `none_safety`: an accepted, syntactically boolean invariant yields a `bool` or
+raises `TypeError` / `IndexError` / another error — never `AttributeError` on `None`.  (Excluding
+the `TypeError` needs the operand checks the inferrer lacks: findings F1, F3, F4.) -/
+theorem accepted_boolForm_outcomes {κ : Type} [DecidableEq κ] {key : Expr → κ} (hk : KeySound key)
+    (Γ : TEnv) (ρ : Env) (e : Expr) (τ : Ty)
+    (hwf : Γ.decls.WF) (hconf : Conforms ρ Γ) (hsafe : EnvSafe ρ) (hcalls : CallsConform ρ Γ)
+    (hf : ∀ op a b, IsBoolOut (ρ.fops.cmp op a b)) (hb : boolForm e = true)
+    (h : infer key Γ [] e = .ok τ) :
+    (∃ b, eval ρ e = .val (.bool b)) ∨ eval ρ e = .typeError ∨ eval ρ e = .indexError ∨ eval ρ e = .otherError := by
+  have hn := none_safety hk Γ ρ e τ hwf hconf hsafe hcalls h
+  cases hev : eval ρ e with
+  | val v =>
+    obtain ⟨b, rfl⟩ := bool_result ρ hf e hb v hev
+    exact Or.inl ⟨b, rfl⟩
+  | noneDeref => exact absurd hev hn
+  | typeError => exact Or.inr (Or.inl rfl)
+  | indexError => exact Or.inr (Or.inr (Or.inl rfl))
+  | otherError => exact Or.inr (Or.inr (Or.inr rfl))
+
+example : boolForm e1 = true ∧ boolForm e2 = true ∧ boolForm e5 = false := by decide
 
 /-! ## The tables read off the source agree with the model -/
 
